@@ -105,8 +105,11 @@ def run(ctx):
         return
     else:
         run_all(ctx, binp, corr_broken, scale=1)
-        run_wall(ctx, binp, corr_broken)
-        run_refresh_leg(ctx, corr_broken)
+        if run_wall(ctx, binp, corr_broken):
+            ctx.log("scan-loop refresh leg skipped: the scanner of this tree stops for good (SCANNER-STOPPED above); the leg "
+                    "would only run into its 120 s timeout")
+        else:
+            run_refresh_leg(ctx, corr_broken)
         c04opts.run(ctx, corr_broken)    # audit A12: option pair (msg-timeout, max-msg-timeout) on a real daemon
         for b in extra_bins:
             run_all(ctx, b, corr_broken, scale=1)
@@ -231,11 +234,20 @@ def run_refresh_leg(ctx, corr_broken):
 
 def run_wall(ctx, binp, corr_broken):
     """Client-side wall-clock scenarios (DPUB, REQ, msg_timeout, TOUCH with cap) on a daemon with the
-    default scan interval: only EARLY delivery is a failure; lateness is measured and reported."""
-    rc, out = ctx.run_cmd([binp, "-test.run", "^TestVerifWallClock$", "-test.count=1", "-test.timeout=300s"],
-                          timeout=330, env={"VERIF_SEED": ctx.seed, "VERIF_N": ctx.budget(1, 5), "VERIF_OUT": ctx.work})
+    default scan interval: only EARLY delivery is a failure; lateness is measured and reported.
+    Returns True iff the dirty-scan-loop leg reported SCANNER-STOPPED (legs that wait for the scanner are then skipped)."""
+    # first (about 1 s): the real queueScanLoop with its dirty loop open (1 busy + 2 idle channels). A scanner that stops for
+    # good is reported here, with a replay, instead of by the wall-clock scenarios waiting 300 s for a message that never comes.
+    scanner_stopped = run_scan_dirty(ctx, binp, corr_broken)
+    if scanner_stopped:
+        ctx.log("TestVerifWallClock skipped: TestVerifScanLoopDirty reported SCANNER-STOPPED (queueScanLoop releases nothing any "
+                "more on this tree; every wall-clock scenario would only wait for its 300 s timeout)")
+        rc, out = 0, ""
+    else:
+        rc, out = ctx.run_cmd([binp, "-test.run", "^TestVerifWallClock$", "-test.count=1", "-test.timeout=300s"],
+                              timeout=330, env={"VERIF_SEED": ctx.seed, "VERIF_N": ctx.budget(1, 5), "VERIF_OUT": ctx.work})
     if "no tests to run" in out:
-        return
+        return scanner_stopped
     for l in out.splitlines():
         if l.startswith("ORACLE-FAIL"):
             ctx.violation("wall-oracle:EARLY", l, "TestVerifWallClock seed %s\n%s\n" % (ctx.seed, l))
@@ -272,7 +284,7 @@ def run_wall(ctx, binp, corr_broken):
     elif "no tests to run" not in out4:
         ctx.log("TestVerifScanWindowReplay did not complete (rc=%s):\n%s" % (rc4, out4[-1500:]))
         corr_broken.append("scan-window replay exit %s" % rc4)
-    # open finding stale-heap-entry-hides-due (audit A3, proposed fix F48): replayed on every run, KNOWN-FINDING only while it reproduces
+    # fixed finding stale-heap-entry-hides-due (audit A3, fix F48 = /repo 88fd245): replayed on every run, must not reproduce (VIOLATION if it does)
     rc5, out5 = ctx.run_cmd([binp, "-test.run", "^TestVerifStaleHeapReplay$", "-test.count=1", "-test.timeout=120s"],
                             timeout=150, env={"VERIF_SEED": ctx.seed, "VERIF_OUT": ctx.work})
     m5 = re.search(r"^STALEHEAP reproduced=(\w+).*$", out5, re.M)
@@ -280,7 +292,7 @@ def run_wall(ctx, binp, corr_broken):
         ctx.corr["stale_heap_replay"] = m5.group(0)[:700]
         if m5.group(1) == "true":
             ctx.violation("stale-heap-entry-hides-due", m5.group(0)[:700],
-                          open(os.path.join(ROOT, "corpus", "C04", "known", "stale_heap_entry.ops")).read() + m5.group(0) + "\n")
+                          open(os.path.join(ROOT, "corpus", "C04", "fixed", "stale_heap_entry.ops")).read() + m5.group(0) + "\n")
     elif "no tests to run" not in out5:
         ctx.log("TestVerifStaleHeapReplay did not complete (rc=%s):\n%s" % (rc5, out5[-1500:]))
         corr_broken.append("stale-heap replay exit %s" % rc5)
@@ -302,9 +314,53 @@ def run_wall(ctx, binp, corr_broken):
         ctx.corr["wall_clock"] = {"summary": okl[0], "late": [l for l in out.splitlines() if l.startswith("WALL-LATE")][:10]}
         m = re.search(r"scenarios=(\d+)", okl[0])
         ctx.evaluations += int(m.group(1)) if m else 0
-    elif not any(l.startswith("ORACLE-FAIL") for l in out.splitlines()):
+    elif not scanner_stopped and not any(l.startswith("ORACLE-FAIL") for l in out.splitlines()):
         ctx.log("wall-clock scenarios did not complete (rc=%s):\n%s" % (rc, out[-1500:]))
         corr_broken.append("wall-clock harness exit %s" % rc)
+    return scanner_stopped
+
+
+def run_scan_dirty(ctx, binp, corr_broken):
+    """TestVerifScanLoopDirty: real queueScanLoop, 20-25 ms interval, exactly 1 busy + 2 idle channels (33 % dirty > 25 %: the
+    `goto loop` repeat is taken on every dirty tick), selection count 20 and channels+1; a requeued and a deferred message on
+    the busy channel must be released. FAIL only on positive evidence (SCANNER-STOPPED: nothing released for >= max(40
+    intervals, 1 s) with overdue in-flight messages while a control goroutine on a ticker of the same period ran >= 40 times;
+    STARVED: in-flight timeouts of the same channel released meanwhile). Returns True iff SCANNER-STOPPED was reported."""
+    stopped = False
+    for k in range(ctx.budget(2, 4)):
+        seed = ctx.seed + 100 * k
+        rc, out = ctx.run_cmd([binp, "-test.run", "^TestVerifScanLoopDirty$", "-test.count=1", "-test.timeout=60s"],
+                              timeout=90, env={"VERIF_SEED": seed, "VERIF_OUT": ctx.work})
+        if "no tests to run" in out:
+            break
+        lines = out.splitlines()
+        bad = [l for l in lines if l.startswith("ORACLE-FAIL")]
+        for l in bad:
+            kind = l.split()[1].rstrip(":")
+            stopped = stopped or kind == "SCANNER-STOPPED"
+            ctx.violation("scanloopdirty-oracle:" + kind, l,
+                          "# harness/e1/timing_test.go TestVerifScanLoopDirty (real NSQD, real queueScanLoop; 1 busy + 2 idle channels)\n"
+                          "# replay: VERIF_SEED=%s <e1 harness test binary> -test.run '^TestVerifScanLoopDirty$' -test.count=1\n%s\n"
+                          % (seed, "\n".join(l for l in lines if l.startswith(("ORACLE-FAIL", "SCANLOOPDIRTY-")))))
+        res = [l for l in lines if l.startswith(("SCANLOOPDIRTY-OK", "SCANLOOPDIRTY-INCONCLUSIVE"))]
+        for l in res:
+            ctx.corr.setdefault("scan_loop_dirty", []).append(l)
+            ctx.evaluations += 1
+            if l.startswith("SCANLOOPDIRTY-INCONCLUSIVE"):
+                ctx.notes.append(l)
+        for l in lines:
+            if l.startswith("SCANLOOPDIRTY-NOTE"):
+                ctx.log(l)
+            elif l.startswith("SCANLOOPDIRTY-NOREPEAT"):
+                ctx.log(l)
+                ctx.notes.append(l)
+        if bad:
+            break
+        if not res:
+            ctx.log("TestVerifScanLoopDirty did not complete (rc=%s):\n%s" % (rc, out[-1500:]))
+            corr_broken.append("dirty-scan-loop harness exit %s" % rc)
+            break
+    return stopped
 
 
 def oracle_key(stream, line):
